@@ -95,16 +95,38 @@ def run_lines(cmd, lines, timeout=120, cwd=None, env=None, _budget=None, mem_gb=
     except subprocess.TimeoutExpired:
         bad = "timeout"
     if len(lines) == 1:
+        # A hang or crash of one isolated request is never taken at face value: on a loaded machine a healthy
+        # request can exceed a (halved) time limit.  Re-run it alone with a generous limit; the first normal
+        # answer wins, only a failure that reproduces is reported.  The number of confirmations per call is
+        # bounded (a really hanging implementation must not make the check run for hours): after
+        # CONFIRM_TIMEOUTS reproduced hangs / CONFIRM_CRASHES reproduced crashes further ones are believed.
+        if len(_budget) < 3:
+            _budget += [CONFIRM_TIMEOUTS, CONFIRM_CRASHES][len(_budget) - 1:]
+        slot = 1 if bad == "timeout" else 2
+        if _budget[slot] > 0:
+            for _ in range(2):
+                try:
+                    rc, out = sh(cmd, input=data, timeout=max(150, timeout), cwd=cwd, env=env, mem_gb=mem_gb)
+                    ans = out.split("\n")
+                    if ans and ans[-1] == "": ans.pop()
+                    if rc == 0 and len(ans) == 1:
+                        return ans
+                    bad = "crash"
+                except subprocess.TimeoutExpired:
+                    bad = "timeout"
+            _budget[slot] -= 1
         return [bad]
     if _budget[0] <= 0:
         return [bad + "-unisolated"] * len(lines)
     _budget[0] -= 2
     mid = len(lines) // 2
-    t = max(5, timeout // 2)
+    t = max(30, timeout // 2)
     return run_lines(cmd, lines[:mid], t, cwd, env, _budget, mem_gb) + run_lines(cmd, lines[mid:], t, cwd, env, _budget, mem_gb)
 
 
 ISOLATION_LAUNCHES = 600
+CONFIRM_TIMEOUTS = 6
+CONFIRM_CRASHES = 40
 
 
 import contextlib, fcntl
